@@ -30,6 +30,7 @@ import (
 	"strconv"
 	"strings"
 
+	"github.com/prometheus/client_golang/prometheus"
 	"go.etcd.io/etcd/pkg/v3/pbutil"
 	"go.etcd.io/etcd/raft/v3/raftpb"
 	"go.etcd.io/etcd/server/v3/etcdserver/api/snap"
@@ -915,9 +916,11 @@ func runWal(args []string) {
 				ents = append(ents, raftpb.Entry{Type: raftpb.EntryType(atoi(g[0])), Term: atou(g[1]), Index: atou(g[2]), Data: unhexn(g[3])})
 			}
 			before := readState(sc.dir)
+			fs0 := walFsyncs()
 			if err := sc.w.Save(st, ents); err != nil {
 				panic(err)
 			}
+			observed := walFsyncs() > fs0
 			for _, e := range ents {
 				sc.logical = append(sc.logical, logRec{kind: 2, ent: e})
 			}
@@ -934,9 +937,15 @@ func runWal(args []string) {
 			if len(sc.states[len(sc.states)-1].names) != len(before.names) {
 				synced = true
 			}
-			sc.synced[len(sc.synced)-1] = synced
-			if synced {
+			// `synced` is what the contract demands (raft.MustSync, or a cut); what is recorded and reported is what was OBSERVED
+			sc.synced[len(sc.synced)-1] = observed
+			if observed {
 				obs = strings.TrimSuffix(obs, "synced=0") + "synced=1"
+			}
+			if synced && !observed {
+				// the save call has completed, the caller will externalise (vote, acknowledge) - and a power failure now loses it
+				obs += fmt.Sprintf(" nosync=Save(term=%d,vote=%d,commit=%d,entries=%d)-returned-without-fdatasync;after-a-power-failure-ReadAll-returns:%s",
+					st.Term, st.Vote, st.Commit, len(ents), sc.powerFailView(base))
 			}
 			fmt.Fprintf(out, "%s => %s\n", line, obs)
 		case "WN":
@@ -950,13 +959,19 @@ func runWal(args []string) {
 				sn.ConfState = cs
 				conf = hx(pbutil.MustMarshal(cs))
 			}
+			fs0 := walFsyncs()
 			if err := sc.w.SaveSnapshot(sn); err != nil {
 				fmt.Fprintf(out, "%s => conf=%s refused files=- synced=0\n", line, conf)
 				continue
 			}
+			observed := walFsyncs() > fs0
 			sc.snaps = append(sc.snaps, sn)
 			sc.logical = append(sc.logical, logRec{kind: 5})
-			fmt.Fprintf(out, "%s => conf=%s %s\n", line, conf, sc.snapshotDisk(true))
+			obs := sc.snapshotDisk(observed)
+			if !observed {
+				obs += fmt.Sprintf(" nosync=SaveSnapshot(index=%d,term=%d)-returned-without-fdatasync;after-a-power-failure-ReadAll-returns:%s", sn.Index, sn.Term, sc.powerFailView(base))
+			}
+			fmt.Fprintf(out, "%s => conf=%s %s\n", line, conf, obs)
 		case "WX":
 			if err := sc.w.Close(); err != nil {
 				panic(err)
@@ -1004,4 +1019,62 @@ func runWal(args []string) {
 	if sc != nil && sc.w != nil {
 		sc.w.Close()
 	}
+}
+
+
+// walFsyncs is the number of fdatasync calls the wal package has made so far: the sample count of its own histogram
+// etcd_disk_wal_fsync_duration_seconds (wal.sync and the file pipeline observe it around every fileutil.Fdatasync).  The harness
+// OBSERVES the sync points with it instead of assuming raft.MustSync was honoured (seeded change C16-mustsync-after-savestate: the
+// rule was evaluated after w.state had been overwritten, so a Save that only changed Term/Vote returned without fdatasync).
+func walFsyncs() uint64 {
+	mfs, err := prometheus.DefaultGatherer.Gather()
+	if err != nil {
+		panic(err)
+	}
+	for _, mf := range mfs {
+		if mf.GetName() == "etcd_disk_wal_fsync_duration_seconds" {
+			var n uint64
+			for _, m := range mf.GetMetric() {
+				n += m.GetHistogram().GetSampleCount()
+			}
+			return n
+		}
+	}
+	panic("metric etcd_disk_wal_fsync_duration_seconds not registered")
+}
+
+// powerFailView: what ReadAll returns from the newest image that is known to be on stable storage (the last state after which an
+// fdatasync was observed) - i.e. after a power failure that loses every sector written since
+func (sc *walScenario) powerFailView(base string) string {
+	j := -1
+	for i := len(sc.states) - 2; i >= 0; i-- { // the newest state is the one just produced by the unsynced call
+		if sc.synced[i] {
+			j = i
+			break
+		}
+	}
+	if j < 0 {
+		return "no-synced-state"
+	}
+	d, err := os.MkdirTemp(base, "pf")
+	if err != nil {
+		panic(err)
+	}
+	defer os.RemoveAll(d)
+	ds := sc.states[j]
+	for i, n := range ds.names {
+		if err := os.WriteFile(filepath.Join(d, n), ds.files[i], 0o600); err != nil {
+			panic(err)
+		}
+	}
+	w, err := wal.OpenForRead(zap.NewNop(), d, walpb.Snapshot{})
+	if err != nil {
+		return "open:" + strings.ReplaceAll(err.Error(), " ", "_")
+	}
+	defer w.Close()
+	_, st, ents, err := w.ReadAll()
+	if err != nil {
+		return "readall:" + strings.ReplaceAll(err.Error(), " ", "_")
+	}
+	return fmt.Sprintf("term=%d,vote=%d,commit=%d,entries=%d", st.Term, st.Vote, st.Commit, len(ents))
 }
